@@ -2,7 +2,9 @@ SPECIFICATION Spec
 CONSTANTS
   NProc = 2
   MaxLen = 2
+  MaxRuns = 1
   SharedCache = FALSE
-INVARIANTS NoSharedWrite NoForeignRead Equivalent
+  ReuseInterp = FALSE
+INVARIANTS NoSharedWrite NoForeignRead Equivalent RegexesAsCompiled
 PROPERTIES Immutable
 CHECK_DEADLOCK FALSE
